@@ -104,8 +104,8 @@ Proof.
     destruct (alk (pi_part (sr_pi r)) (children (f_heap s) p)) as [c|]; [now apply oe_shape|].
     cbn [create_file]. unfold open_shape. cbn [snd fst new_handle hd_name hd_mode hd_node f_heap].
     repeat split; auto. eexists. split; [reflexivity|]. right.
-    set (x := NFile [] 1 (f_last_id s + 1)%N (new_meta v (file_mode (v_os v)) perm)).
-    exists [], 1%Z, (f_last_id s + 1)%N, (new_meta v (file_mode (v_os v)) perm).
+    set (x := NFile [] 1 (f_last_id s + 1)%N (new_meta v (meta_of (f_heap s) p) (file_mode (v_os v)) perm)).
+    exists [], 1%Z, (f_last_id s + 1)%N, (new_meta v (meta_of (f_heap s) p) (file_mode (v_os v)) perm).
     unfold add_child. destruct (get (f_heap s ++ [x]) p) as [[ch m| |]|] eqn:Ep; try apply get_app_new.
     rewrite get_upd_other; [apply get_app_new|].
     intros ->. rewrite get_app_new in Ep. discriminate.
